@@ -2,7 +2,10 @@ package c13
 
 import (
 	"fmt"
+	"os"
+	"os/exec"
 	"reflect"
+	"strconv"
 	"strings"
 	"sync"
 
@@ -22,6 +25,9 @@ type pin struct {
 	Doc  string // the documentation sentence it encodes / what fails
 	Run  func(p *pinEnv)
 }
+
+// fatalPins: witnesses that kill an unfixed process (fatal Go error); they are run in a child process.
+var fatalPins = map[string]bool{"cyclic-goslice-join": true}
 
 type pinEnv struct {
 	r    *goja.Runtime
@@ -349,9 +355,25 @@ var pinned = []pin{
 		p.js(`c.reverse(); d.reverse()`)
 		p.check(c[0] == 3 && c[2] == 1 && d[0]["k"] == 3 && d[2]["k"] == 1, "reverse(): Go c = %v d = %v, expected [3 2 1] / k: 3 2 1", c, d)
 	}},
+	{"cyclic-goslice-join", "a Go slice that (through script writes) contains itself: toString / join / toLocaleString return like for cyclic Arrays instead of overflowing the Go stack", func(p *pinEnv) {
+		s := []interface{}{1}
+		p.set("s", &s)
+		p.expect(`s[0] = s; String(s) + '|' + s.toLocaleString()`, "|")
+	}},
 }
 
 func runPin(i int) *violation {
+	if fatalPins[pinned[i].Name] && os.Getenv("C13_CHILD") == "" {
+		// run the witness in a child process (same binary, `one <index>`): a fatal error there is an ordinary observation here
+		cmd := exec.Command(os.Args[0], "one", strconv.Itoa(-(i + 1)))
+		cmd.Env = append(os.Environ(), "C13_CHILD=1")
+		out, _ := cmd.CombinedOutput()
+		if strings.Contains(string(out), fmt.Sprintf("index=%d: held", -(i+1))) {
+			return nil
+		}
+		first := strings.SplitN(strings.TrimSpace(string(out)), "\n", 2)[0]
+		return &violation{"host-crash", pinned[i].Name + ": the witness killed the (child) process or failed: " + core.Trunc(first, 300), "pinned:" + pinned[i].Name + ":host-crash"}
+	}
 	p := &pinEnv{r: gj.NewRuntime(), name: pinned[i].Name}
 	goja.VerifSetFuel(p.r, 2_000_000)
 	o := gjCall(func() { pinned[i].Run(p) })
@@ -384,7 +406,7 @@ func fixed(name string) bool {
 	fixedOnce.Do(func() {
 		fixedMap = map[string]bool{}
 		for i, p := range pinned {
-			if strings.HasPrefix(p.Name, "doc-") {
+			if strings.HasPrefix(p.Name, "doc-") || fatalPins[p.Name] && os.Getenv("C13_CHILD") != "" {
 				continue
 			}
 			fixedMap[p.Name] = runPin(i) == nil
@@ -406,5 +428,7 @@ func fixedJsonEncodable() bool  { return fixed("jsonencodable-stale") }
 func fixedJSFuncConv() bool     { return fixed("jsfunc-conversion-panic") }
 func fixedEmbCache() bool       { return fixed("embedded-ptr-promoted-cache") }
 func fixedPtrSlot() bool        { return fixed("ptr-element-slot-alias") }
+
+func fixedCyclicJoin() bool { return fixed("cyclic-goslice-join") }
 
 var _ = reflect.TypeOf
